@@ -109,6 +109,21 @@ def reduceWindows {α} (x : Nat → Nat → α) (n0 n1 : Nat) (w : Nat × Nat) (
   let block ← wrappedCrop2d x n0 n1 cc size
   corners.mapM fun c => batchCrop block c w
 
+/-- `tensordot(position_coefficients, array, axes=[-1, -3])` for one position: `Σ_k c_k · block_k`, pixel by pixel, on
+blocks of shape `s0 × s1` -/
+def combine {α} [Add α] [Mul α] [Zero α] (cs : List α) (blocks : List (List (List α))) (s0 s1 : Nat) : List (List α) :=
+  (List.range s0).map fun (i : Nat) => (List.range s1).map fun (j : Nat) =>
+    ((cs.zip blocks).map fun cb => cb.1 * ((cb.2.getD i []).getD j 0)).sum
+
+/-- the window branch of `SMatrixArray._reduce_to_waves` as the code runs it: crop every plane `S_k` of the scattering
+matrix to the common block, combine the cropped planes with the coefficients of each position, then cut each position's
+window out of its combined block.  `coeffs[p]` are the coefficients `c_k` of position `p`. -/
+def reduceToWaves {α} [Add α] [Mul α] [Zero α] (planes : List (Nat → Nat → α)) (n0 n1 : Nat) (w : Nat × Nat)
+    (pixel : List (Rat × Rat)) (coeffs : List (List α)) : Except String (List (List (List α))) := do
+  let (cc, size, corners) := minimumCrop pixel w
+  let blocks ← planes.mapM fun S => wrappedCrop2d S n0 n1 cc size
+  (corners.zip coeffs).mapM fun cp => batchCrop (combine cp.2 blocks size.1.toNat size.2.toNat) cp.1 w
+
 /-- what the property asks for: the window of position `p` is the periodic window whose corner is
 `rint(p − w // 2)`, independently of the other positions of the batch -/
 def expectedWindow {α} (x : Nat → Nat → α) (n0 n1 : Nat) (w : Nat × Nat) (p : Rat × Rat) : List (List α) :=
